@@ -64,6 +64,9 @@ type replayFile struct {
 
 func (r *Run) writeBuildFailure(err error) string {
 	dir := filepath.Join(r.verif, "replays", r.prop.ID)
+	if r.scratchDir != "" {
+		dir = filepath.Join(r.scratchDir, "replays")
+	}
 	_ = os.MkdirAll(dir, 0o755)
 	p := filepath.Join(dir, "load-failure.json")
 	rf := replayFile{Property: r.prop.ID, Obligation: "load#binding", Kind: "binding", Class: "binding", SolverOutput: err.Error()}
@@ -74,6 +77,9 @@ func (r *Run) writeBuildFailure(err error) string {
 
 func (r *Run) report(kf []knownFinding) {
 	dir := filepath.Join(r.verif, "replays", r.prop.ID)
+	if r.scratchDir != "" {
+		dir = filepath.Join(r.scratchDir, "replays")
+	}
 	_ = os.RemoveAll(dir)
 	all := append([]*Obligation{}, r.bindErrs...)
 	all = append(all, r.failures...)
